@@ -16,17 +16,27 @@ META = {
             "index types, literal or loaded bound) and check_buffer_overflow_ir passes iff start+length <= src_len without "
             "wrap-around, transferred to the real generator's output for the whole type/location family by kernel-checked "
             "syntactic equality; the Venom allocator's first fit avoids every reserved interval; one legacy allocation step "
-            "is safe under the free-list invariant.  Canary contracts in every data location tie the compiled code.",
+            "is safe under the free-list invariant.  Canary contracts in every data location tie the compiled code.  "
+            "Session 3: every store of the legacy slice() copy (word loop for storage / transient sources, bulk copy, single word) and "
+            "its length store lie inside the buffer the generator allocated, for all start / length, transferred to the real "
+            "Slice.build_IR + copy_bytes + MemoryAllocator for the whole location x type x capacity x literal/run-time-length family "
+            "(observed_slice_writes_in_buffer); builtins that materialise a byte string run as the topmost allocation of an internal "
+            "function while every local of the caller is compared with the source-level expectation.",
     "level_note": "Trusted: Coq kernel + vm_compute, C03/LIR.v evaluator and Base/Word256.v (tied to pyrevm elsewhere), exporter "
                   "tools/vlib/c04_export.py (replaces the length load by a variable), hand models of both allocators (exact-output "
                   "differential).  NOT proved: preservation of the legacy free-list invariant by deallocate (differential + "
                   "executable invariant only), Venom liveness analysis / concretize loop, slice/extract32/concat, Venom front-end "
-                  "subscript lowering (canary differential only).",
+                  "subscript lowering (canary differential only).  Session 3 (slice buffer): trusted exporter tools/vlib/c04_slicebuf.py "
+                  "(keeps the with-bindings an exported expression depends on, renames the loop index to ix), the semantics of `repeat` "
+                  "(count asserted <= bound before the first iteration), `length <= dst_maxlen` for byte-addressed sources (given by the "
+                  "bounds check and len(src) <= maxlen); concat / abi_encode / convert buffers and all Venom copy loops: canaries only.",
     "technique": "Coq proof over observed IR templates (O-tie) + allocator models with exact-output differential + EVM canary contracts",
 }
 
 COQ_FILES = ["C04/GenChecks.v", "C04/GenLegacy.v", "C04/GenVenomAlloc.v", "C04/AllocModel.v", "C04/AllocProofs.v", "C04/VenomAllocSeq.v", "C04/LegacyProofs.v", "C04/LegacyTie.v",
              "C04/Frames.v", "C04/Concretize.v", "C04/MemLiveness.v", "C04/Fmp.v", "C04/Checks.v", "C04/PropsC04.v"]
+# session 3: buffer arithmetic of the legacy slice() generator (GenSliceBuf.v regenerated from the real Slice.build_IR)
+SLICEBUF_FILES = ["C04/SliceBufModel.v", "C04/GenSliceBuf.v", "C04/PropsSliceBuf.v"]
 IMPORTS = "From Verif Require Import C04.AllocModel.\n"
 
 
@@ -509,6 +519,57 @@ def part_canaries(ctx, cfgs):
     return n_cases, False
 
 
+
+# ------------------------------------------------------------------ session 3: slice() buffer arithmetic + top-of-frame buffers
+def part_slice_buffers(ctx, quick, earlier_found):
+    """GenSliceBuf.v from the real Slice.build_IR / copy_bytes / MemoryAllocator, PropsSliceBuf.v (every store of the copy inside
+    the allocated buffer); then the canaries with a builtin's buffer as the topmost allocation of a callee frame (they are the
+    Search for the Coq statement: members the python mirror of alloc_ok finds under-allocated become directed shapes)."""
+    import time as _t
+    from vlib.configs import configs, core_configs
+    sb, sb_err, directed = {"ok": True}, None, []
+    _t9 = _t.time()
+    try:
+        from vlib.c04_slicebuf import gen_slice_buf
+        with warnings.catch_warnings():
+            warnings.simplefilter("ignore")
+            sb_text, sb_st = gen_slice_buf()
+        (COQ / "C04" / "GenSliceBuf.v").write_text(sb_text)
+        ctx.corr["slice_buffer_family"] = {"family_size": sb_st["family_size"], "distinct_shapes": sb_st["distinct_shapes"],
+                                           "under_allocated": len(sb_st["under_allocated"])}
+        ctx.extra["family_size"] = ctx.extra.get("family_size", 0) + sb_st["family_size"]
+        # the python mirror of alloc_ok only directs the search; the verdict is Coq's
+        cands = []
+        for i in sb_st["under_allocated"]:
+            key = (i["loc"], i["typ"], max(i["cap"] or 2, 2), i["len"])
+            if i["loc"] in ("storage", "transient", "memory") and i["typ"] in ("Bytes", "String") and key not in cands:
+                cands.append(key)
+        directed = cands[::max(1, len(cands) // 6)][:6]     # a spread of at most 6 members
+    except Exception as e:
+        sb_err = f"{type(e).__name__}: {e}"
+    if sb_err is None:
+        coqrun.build_sequence(["C03/LIR.v"], force=False)
+        sb = ctx.coq_build_cached(SLICEBUF_FILES, deps=["C03/LIR.v"])
+        if sb["ok"]:
+            ctx.extra["syntactic_matches"] = ctx.extra.get("syntactic_matches", 0) + sb_st["family_size"]
+    ctx.log(f"part slice buffer arithmetic (export + coq) {_t.time() - _t9:.1f}s")
+    n9, f9 = 0, False
+    if not earlier_found:
+        from vlib import c04_topbuf
+        _t9 = _t.time()
+        # quick: both legacy pipelines + one venom pipeline (the 4th core configuration only in thorough, with the covering set)
+        n9, f9 = c04_topbuf.run(ctx, core_configs()[:3] if quick else configs("quick"), 3 if quick else 12, directed=directed)
+        ctx.log(f"part top-of-frame buffers {_t.time() - _t9:.1f}s")
+    if (sb_err is not None or not sb["ok"]) and not (earlier_found or f9):
+        if sb_err is not None:
+            ctx.violation("translator-rejected", "cannot export the buffer arithmetic of Slice.build_IR / copy_bytes: " + sb_err, {"error": sb_err})
+        else:
+            ctx.violation("theorem-broken", f"{sb.get('failed_lemma')} in {sb['file']} (stores of the legacy slice() copy vs. the buffer it allocates)",
+                          {"theorem": sb.get("failed_lemma"), "file": sb["file"], "coq_output": sb["out"][-1500:],
+                           "under_allocated_members": [str(d) for d in directed]})
+    return n9, f9
+
+
 # ------------------------------------------------------------------ Search for a broken template
 def search_template(ctx):
     """A bounds-check template changed / theorem broke: the canary harness (which judges by the property's own
@@ -583,8 +644,10 @@ def run(ctx):
         _t8 = _t.time()
         n8, f8 = c04_frames.run(ctx, core_configs() if quick else configs("quick"), 3 if quick else 12)
         ctx.log(f"part nested frames {_t.time() - _t8:.1f}s")
-    total = n1 + n2 + n3 + n4 + n5 + n6 + n7 + n8
-    found = f1 or f2 or f3 or f4 or f5 or f6 or f7 or f8
+    # ---- session 3: slice() buffer arithmetic under Coq (O-tie) + builtin buffers at the top of a callee frame
+    n9, f9 = part_slice_buffers(ctx, quick, f1 or f2 or f3 or f4 or f5 or f6 or f7 or f8)
+    total = n1 + n2 + n3 + n4 + n5 + n6 + n7 + n8 + n9
+    found = f1 or f2 or f3 or f4 or f5 or f6 or f7 or f8 or f9
     if (gen_err is not None or not b["ok"]) and not found:
         if gen_err is not None:
             ctx.violation("translator-rejected", "cannot export the bounds-check templates: " + gen_err, {"error": gen_err})
